@@ -38,6 +38,8 @@ def check(case, M):
     r = B.run_case(case, M, tier)
     if "trivial" in r:
         return {"key": B.key_of(case), "nontrivial": False, "tags": ["trivial:" + r["trivial"]], "failures": []}
+    if r.get("inconclusive"):
+        return {"key": B.key_of(case), "nontrivial": False, "tags": ["inconclusive:" + r["inconclusive"]], "failures": []}
     failures = []
     fid = B.finding_of(case, r, "C02")
 
